@@ -296,10 +296,12 @@ fn get_non_numeric_filter_func<'a>(
             .starts_with(resolved_unit_dir_admin_user.clone())
         {
             if entry.path().components().count() > system_user_dir_level {
+                // the first component below the users directory decides: everything below
+                // a numeric (= some user's) directory belongs to that user only
                 if !entry
                     .path()
                     .components()
-                    .last()
+                    .nth(system_user_dir_level)
                     .expect("path should have enough components")
                     .as_os_str()
                     .as_bytes()
